@@ -112,6 +112,7 @@ type VC struct {
 	mathInts     int
 	heapPureMemo map[*FuncInfo]bool
 	afterHavoc   func(*State)
+	pendErr      *types.Var // ghost: some callee has returned a non-nil error (directive guard-errors)
 }
 
 func newVC(prog *Prog, fn *FuncInfo, mode Mode) *VC {
